@@ -197,9 +197,10 @@ def families(tier):
                         [post(1, 1, 'null'), reshape(2, 'null')]),
             make_family('existing/put-either+put-either', True,
                         [put(1, 1, 'either'), put(2, 2, 'either')]),
-            make_family('new/put+put+put', False,
-                        [put(1, 1, 'null'), put(2, 1, 'null'),
-                         put(3, 2, 'null')]),
+            # three racing creators: ~35 000 interleavings x data paths do
+            # not finish in the thorough budget; three-request schedules for
+            # consumer generations are outside the claim (C05/C07 have
+            # three-request families)
         ]
     return fams
 
